@@ -10,6 +10,8 @@ CONSTANTS
   KnownCheck = TRUE
   ResetFree = TRUE
   CmpOK = TRUE
+  ByteReqs = {}
+  DerivedCheck = FALSE
   K = 5
 VIEW GenView
 CONSTRAINT GenBound
